@@ -25,7 +25,7 @@ CHECKS = [
  dict(id="C09", engine="stor", level="fault_enumeration", design="§4.1, §5 C09",
       technique="deterministic simulation with fault injection at the JwkStorage/KeyIdStorage seams: per storage-backed call a tape-drawn fault mask over storage-call occurrences, seeded yields deciding the completion order of the joined deletes, optional concurrent bystander; before/after snapshots of document and both stores against a reference model",
       text="Seeded search over document histories x fault masks (every subset of the <=4 storage calls of generate_method / purge_method failing cleanly) x join orders x document type x target kind (embedded / general-purpose with 0,1,>=2 references / dangling-only / absent); after every call: Ok => method resolves in scope, key id recorded, key exists, signing verifies, nothing else changed; Err => document (order-insensitive) and both stores equal the pre-state; UndoOperationFailed licenses exactly the named stray. The realised (op, doc type, target, refs, call/fault vector, join order, outcome) cells are counted in the evidence.",
-      note="Failures injected are clean failures as the storage traits require (error returned, store not altered). Dirty failures, allocation failure and Stronghold are not simulated. After an error the document must equal its pre-state exactly (order included); after success the set of entries is compared."),
+      note="Main engine: failures injected are clean failures (error returned, store not altered), 7 key-id and 8 key-store error kinds. Thorough tier also: generate_method / purge_method over the REAL StrongholdStorage (sim-stronghold c09, 3000 histories) with the write of the snapshot file failing at tape-chosen occurrences through the guarded hook identity_stronghold::verif_hooks - an error AFTER the in-memory effect, what a full disk does to that store; judged through exists / get_key_id / signing / number of key-id entries (a key created in memory whose id no caller learnt is not observable and not judged). Allocation failure is not simulated. After an error the document must equal its pre-state exactly (order included); after success the set of entries is compared."),
  dict(id="C04", engine="stor", level="exploration", design="§4.1, §5 C04",
       technique="deterministic simulation: seeded document mutation histories in which storage-backed generate/purge run under injected storage faults and seeded schedules, checked step by step against a set-of-entries reference model (state, outcome, invariants, JSON/state-metadata round trip, every resolution query)",
       text="Seeded histories of <=12 operations over 2-5 fragments x 2 DIDs from empty, built and deserialised start documents (incl. dangling own/foreign references, foreign-DID embedded methods, shared fragments); after every step: id-uniqueness invariants recomputed from the entries, refused operations leave the document unchanged, to_json/from_json (and pack/unpack for IotaDocument) round trip, resolve_method / resolve_service / methods for every id and fragment with and without every scope agree with the model. Only generate_method/purge_method can meet faults; the plain mutators run as fault-free model conformance.",
@@ -65,12 +65,12 @@ CHECKS = [
 ]
 
 def main():
-    commits = subprocess.run(["git","-C","/repo","log","--format=%H %s","--grep=^verif hooks"],capture_output=True,text=True).stdout.strip().splitlines()
+    commits = subprocess.run(["git","-C","/repo","log","--format=%H %s","--grep=^verif hooks","--grep=^verification hook"],capture_output=True,text=True).stdout.strip().splitlines()
     m = {
       "version": 1,
       "setup_cmd": "bin/check --build",
       "hooks": {
-        "guard": "--cfg identity_rs_verif (rustc cfg flag, set in /verif/sim/.cargo/config.toml build.rustflags)",
+        "guard": "--cfg identity_rs_verif (rustc cfg flag, set in /verif/sim/.cargo/config.toml and /verif/sim-stronghold/.cargo/config.toml build.rustflags; hooks in identity_storage::verif_hooks and identity_stronghold::verif_hooks)",
         "enable": "cd /verif/sim && cargo build --release --offline   # .cargo/config.toml adds RUSTFLAGS --cfg identity_rs_verif; path dependencies on /repo/* so the current working tree is rebuilt",
         "baseline_off_cmd": "cd /repo && (cargo nextest run --workspace --no-fail-fast --tool-config-file pb:/w/lib/nextest.toml --profile pb --test-threads 8 --offline || cargo test --workspace --no-fail-fast --offline)",
         "source_commits": [c.split()[0] for c in commits],
@@ -80,7 +80,7 @@ def main():
         {"name":"res","path":"sim/src/engines/res.rs","serves_properties":["C20"],"kind_free_text":"deterministic simulation of the real Resolver under a seeded executor with gated handler futures"},
       ],
       "checks": [],
-      "notes": "All checks: bin/check <ID> <quick|thorough>; replay: bin/check --replay <file>. Exit 0 held, 1 VIOLATION, 2 harness error. VERIF_SEED seeds the batch (default fixed 0x1D5EED). Genuine defects that are recorded rather than repaired are listed in known_findings.json (findings); the checks of C02, C03, C04, C14 and C16 print one KNOWN-FINDING line each for them and exit 0 (8 findings: C02 1, C03 1, C04 2, C14 1, C16 3 - one of the C16 lines comes from a child-process crash probe, DESIGN 11.1); the 'fixed' list of that file records the 33 fix: commits in /repo and suppresses nothing. The simulator builds identity_storage with the jpt-bbs-plus feature (BBS+ keys in the shipped store). See DESIGN.md (7.1 findings, 11 corrections, 12 seeded-change campaign: 140 confirmed changes kept under seeded/, sub-agents' reports of genuine defects under seeded/genuine/, tools/seeded_regress.sh re-evaluates them in a scratch worktree).",
+      "notes": "All checks: bin/check <ID> <quick|thorough>; replay: bin/check --replay <file>. Exit 0 held, 1 VIOLATION, 2 harness error. VERIF_SEED seeds the batch (default fixed 0x1D5EED). Genuine defects that are recorded rather than repaired are listed in known_findings.json (findings); the checks of C02, C03, C04, C14, C16 and C20 print one KNOWN-FINDING line each for them and exit 0 (9 findings: C02 1, C03 1, C04 2, C14 1, C16 3, C20 1 - one of the C16 lines comes from a child-process crash probe, DESIGN 11.1); the 'fixed' list of that file records the 43 fix: commits in /repo and suppresses nothing. C09 thorough also runs generate_method / purge_method over the real StrongholdStorage with failing snapshot writes (sim-stronghold c09), C15 thorough the Stronghold sequential tier and the Miri thread tier. The simulator builds identity_storage with the jpt-bbs-plus feature (BBS+ keys in the shipped store). See DESIGN.md (7.1 findings, 11 corrections, 12 seeded-change campaign: 152 confirmed changes kept under seeded/, sub-agents' reports of genuine defects under seeded/genuine/, tools/seeded_regress.sh re-evaluates them in a scratch worktree).",
       "not_applicable": [],
     }
     engines = {}
